@@ -22,6 +22,25 @@ type fmtCase struct {
 
 // further components a case's schema refers to
 var fmtExtra = map[string]map[string]string{
+	"SumFields3": {
+		"Circle":   `{"type":"object","required":["id","radius"],"properties":{"id":{"type":"string"},"radius":{"type":"number"},"tag":{"type":"string"}}}`,
+		"Square":   `{"type":"object","required":["id","side"],"properties":{"id":{"type":"string"},"side":{"type":"number"},"tag":{"type":"string"}}}`,
+		"Triangle": `{"type":"object","required":["id","base","height"],"properties":{"id":{"type":"string"},"base":{"type":"number"},"height":{"type":"number"}}}`,
+	},
+	"SumFields5": {
+		"V1": `{"type":"object","required":["id","a"],"properties":{"id":{"type":"integer"},"a":{"type":"string"},"m":{"type":"string"}}}`,
+		"V2": `{"type":"object","required":["id","b"],"properties":{"id":{"type":"integer"},"b":{"type":"string"},"m":{"type":"string"}}}`,
+		"V3": `{"type":"object","required":["id","c"],"properties":{"id":{"type":"integer"},"c":{"type":"string"},"m":{"type":"string"}}}`,
+		"V4": `{"type":"object","required":["id","d"],"properties":{"id":{"type":"integer"},"d":{"type":"string"},"n":{"type":"string"}}}`,
+		"V5": `{"type":"object","required":["id","e"],"properties":{"id":{"type":"integer"},"e":{"type":"string"},"n":{"type":"string"}}}`,
+	},
+	"NamedBoxes": {
+		"NArr": `{"type":"array","nullable":true,"items":{"type":"string"}}`,
+		"Arr":  `{"type":"array","items":{"type":"integer"}}`,
+		"NStr": `{"type":"string","nullable":true}`,
+		"NObj": `{"type":"object","nullable":true,"required":["k"],"properties":{"k":{"type":"integer"}}}`,
+		"NInt": `{"type":"integer","nullable":true}`,
+	},
 	"NullEmptyRef": {"NullEmpty": `{"type":"object","nullable":true}`},
 	"SumBag": {
 		"Bag": `{"type":"object","required":["kind"],"properties":{"kind":{"type":"string"}},"additionalProperties":{"type":"string"}}`,
@@ -31,6 +50,24 @@ var fmtExtra = map[string]map[string]string{
 }
 
 var fmtCases = []fmtCase{
+	// sums told apart by the members only one variant has: a member shared by three (five) variants, one shared by
+	// two, one by three, must not decide anything
+	{"SumFields3", `{"type":"object","required":["v"],"properties":{"v":{"oneOf":[{"$ref":"#/components/schemas/Circle"},{"$ref":"#/components/schemas/Square"},{"$ref":"#/components/schemas/Triangle"}]}}}`,
+		[]string{`{"v":{"id":"c","radius":1.5}}`, `{"v":{"id":"s","side":2}}`, `{"v":{"id":"t","base":3,"height":4}}`, `{"v":{"id":"c","radius":1,"tag":"x"}}`, `{"v":{"id":"s","side":2,"tag":"y"}}`}},
+	{"SumFields5", `{"type":"object","required":["v"],"properties":{"v":{"oneOf":[{"$ref":"#/components/schemas/V1"},{"$ref":"#/components/schemas/V2"},{"$ref":"#/components/schemas/V3"},{"$ref":"#/components/schemas/V4"},{"$ref":"#/components/schemas/V5"}]}}}`,
+		[]string{`{"v":{"id":1,"a":"x"}}`, `{"v":{"id":2,"b":"x"}}`, `{"v":{"id":3,"c":"x"}}`, `{"v":{"id":4,"d":"x"}}`, `{"v":{"id":5,"e":"x"}}`, `{"v":{"id":1,"a":"x","m":"q"}}`, `{"v":{"id":3,"c":"x","m":"q"}}`, `{"v":{"id":4,"d":"x","n":"q"}}`, `{"v":{"id":5,"e":"x","n":"q"}}`}},
+	// named (component) schemas, nullable or not, used through $ref as required and as optional members: the
+	// boxing is chosen at the use site, the null branch has to exist in the codec of the named type too
+	{"NamedBoxes", `{"type":"object","required":["ra","rb","rs","ro","ri"],"properties":{
+		"ra":{"$ref":"#/components/schemas/NArr"},"oa":{"$ref":"#/components/schemas/NArr"},
+		"rb":{"$ref":"#/components/schemas/Arr"},"ob":{"$ref":"#/components/schemas/Arr"},
+		"rs":{"$ref":"#/components/schemas/NStr"},"os":{"$ref":"#/components/schemas/NStr"},
+		"ro":{"$ref":"#/components/schemas/NObj"},"oo":{"$ref":"#/components/schemas/NObj"},
+		"ri":{"$ref":"#/components/schemas/NInt"},"oi":{"$ref":"#/components/schemas/NInt"}}}`,
+		[]string{`{"ra":null,"rb":[],"rs":null,"ro":null,"ri":null}`, `{"ra":["x"],"rb":[1,2],"rs":"s","ro":{"k":1},"ri":0}`, `{"ra":[],"rb":[0],"rs":"","ro":{"k":0},"ri":-1}`,
+			`{"ra":null,"oa":null,"rb":[],"ob":[],"rs":null,"os":null,"ro":null,"oo":null,"ri":null,"oi":null}`,
+			`{"ra":["a","b"],"oa":["c"],"rb":[3],"ob":[4,5],"rs":"p","os":"q","ro":{"k":7},"oo":{"k":8},"ri":9,"oi":10}`,
+			`{"ra":null,"oa":[],"rb":[],"ob":[1],"rs":"x","os":null,"ro":{"k":2},"oo":null,"ri":1,"oi":null}`}},
 	// a discriminated sum whose variant has only the discriminator plus additional / pattern properties
 	{"SumBag", `{"type":"object","required":["v"],"properties":{"v":{"oneOf":[{"$ref":"#/components/schemas/Bag"},{"$ref":"#/components/schemas/Box"},{"$ref":"#/components/schemas/Pat"}],"discriminator":{"propertyName":"kind","mapping":{"bag":"#/components/schemas/Bag","box":"#/components/schemas/Box","pat":"#/components/schemas/Pat"}}}}}`,
 		[]string{`{"v":{"kind":"bag","x":"y","z":"w"}}`, `{"v":{"kind":"bag"}}`, `{"v":{"kind":"box","size":3}}`, `{"v":{"kind":"pat","x-a":1,"x-b":2}}`}},
@@ -92,7 +129,7 @@ var fmtCases = []fmtCase{
 		"dur":{"type":"string","format":"duration"},"dt":{"type":"string","format":"date-time"},"d":{"type":"string","format":"date"},"t":{"type":"string","format":"time"},"by":{"type":"string","format":"byte"},
 		"f32":{"type":"number","format":"float"},"f64":{"type":"number","format":"double"},"sf64":{"type":"string","format":"float64"},"sf32":{"type":"string","format":"float32"},"sb":{"type":"string","format":"boolean"}}}`,
 		[]string{`{"uuid":"123e4567-e89b-12d3-a456-426614174000"}`, `{"ip":"1.2.3.4"}`, `{"ip":"::1"}`, `{"ip4":"255.255.255.255"}`, `{"ip6":"2001:db8::1"}`, `{"uri":"http://example.com/p?q=1#f"}`,
-			`{"dur":"1h2m3s"}`, `{"dur":"0s"}`, `{"dur":"-1.5s"}`, `{"dt":"2023-11-14T22:13:20Z"}`, `{"dt":"2023-11-14T22:13:20.123456789+05:30"}`, `{"d":"2023-11-14"}`, `{"t":"22:13:20"}`, `{"by":"AAEC/w=="}`, `{"by":""}`,
+			`{"dur":"1h2m3s"}`, `{"dur":"0s"}`, `{"dur":"-1.5s"}`, `{"dur":"-1ns"}`, `{"dur":"-1.5ms"}`, `{"dur":"-250ms"}`, `{"dur":"-999.999999ms"}`, `{"dur":"1ns"}`, `{"dur":"-1s"}`, `{"dur":"-2562047h47m16.854775808s"}`, `{"dur":"1µs"}`, `{"dur":"-1µs"}`, `{"ip6":"::ffff:192.0.2.1"}`, `{"ip":"::ffff:10.0.0.1"}`, `{"dt":"2023-11-14T22:13:20Z"}`, `{"dt":"2023-11-14T22:13:20.123456789+05:30"}`, `{"d":"2023-11-14"}`, `{"t":"22:13:20"}`, `{"by":"AAEC/w=="}`, `{"by":""}`,
 			`{"f32":0.5}`, `{"f32":16777216}`, `{"f64":1e-11}`, `{"f64":9007199254740992}`, `{"f64":1.7976931348623157e308}`, `{"sf64":"0.1"}`, `{"sf32":"0.5"}`, `{"sb":"true"}`, `{"sb":"false"}`}},
 }
 
